@@ -61,3 +61,5 @@ PROP = {'title': 'Grid positions, offsets and ranges form an exact row-major bij
                  'documentation fixes the resulting cells, not how often or when the function is evaluated; and that range_dim of an '
                  'empty range is the all-zero dimension (range_dim<S,N>:empty_range_not_null) -- the verdict only requires that it '
                  'denotes zero cells']}
+
+PROP['rule'] += ' Compile probe narrow_size_types: the position helpers instantiated with unsigned char / unsigned short size types.'
